@@ -35,6 +35,11 @@ def run(tier, seed):
     cases = [p for p in g.printed if "pre" in p]
     if tier == "quick": cases = rnd.sample(cases, 5000)
     cases = cases + [p for p in gs.printed if "pre" in p]
+    # long runs of multi-byte characters: headings, link titles and labels of 450-620 bytes travel through formatted writes (buffers of 256 / 512 / 1024 bytes)
+    anycp = sorted(cps)[0]
+    for n in list(range(80, 90)) + list(range(150, 210)) + list(range(335, 345)):
+        for ch in ("\u4e2d", "\u00e9\u4e2d"):
+            cases.append(dict(t=0, p=0, cp=anycp, cp2="", nl=True, pre="# " + ch * n + " ", post="\n\n[t](http://u.rl \"" + ch * n + "\") ![" + ch * (n // 2) + "](i.png)"))
     def body(c):
         return c["pre"].encode() + cps[c["cp"]] + (cps[c["cp2"]] if c["cp2"] else b"") + c["post"].encode() + (b"\n" if c["nl"] else b"")
     exe = build.build_harness("asan")
@@ -72,7 +77,7 @@ def run(tier, seed):
     acc, rejected, states, info = tlc.validate_trace("Utf8Trace", os.path.join(VERIF, "spec", "Utf8Trace.cfg"), trace, max_rejects=40, timeout=1500, independent=True)
     chk.add("traces_validated_against_impl", len(segs) - len(problems) - len({id(s) for s, i in rejected}))
     chk.cov["evaluations"] = nconv; chk.cov["distinct_nontrivial"] = len(cases)
-    chk.cov["rule"] = "cases = (template, position, code point, final newline) for 35 construct spellings (metadata templates additionally through the metadata-update API) x every character position x 15 code points (quick: 5000 sampled) + random pairs of adjacent code points; x 2 (thorough 6) textual formats x smart on/off x 7 languages rotating"
+    chk.cov["rule"] = "cases = (template, position, code point, final newline) for 37 construct spellings (metadata templates additionally through the metadata-update API) x every character position x 15 code points (quick: 5000 sampled) + random pairs of adjacent code points; x 2 (thorough 6) textual formats x smart on/off x 7 languages rotating"
     chk.sample(dict(doc=body(cases[0]).decode("utf-8"))); chk.sample(dict(doc=body(cases[-1]).decode("utf-8", "replace")))
     seen = {}
     for seg, idx in rejected:
